@@ -153,6 +153,16 @@ def ret_buffer(an, f):
 def k256_uncompressed(ctx, f):
     an = ctx.an(f)
     buf = ret_buffer(an, f)
+    # second accepted form: the 65-byte SEC1 uncompressed encoding minus its tag byte
+    if buf is not None:
+        ty0 = f.locals[buf]["ty"]
+        fills0, others0 = shapes.array_fills(an, buf)
+        if ty0.get("k") == "array" and ty0.get("n") == 64 and len(fills0) == 1 and not others0 and fills0[0]["range"] == (0, None):
+            src = fills0[0]["src"]
+            pat = ("index", P.call(name=("as_bytes", "to_bytes"), args=[P.call(name="to_encoded_point", args=[P.param(1), P.const(0)])]), P.agg("RangeFrom", {"start": P.const(1)}))
+            if P.match(src, pat) is not None:
+                return True, ""
+            return False, "source is %s, expected x||y of self" % short(src)
     if buf is None:
         return False, "does not return a local array"
     ty = f.locals[buf]["ty"]
